@@ -242,6 +242,7 @@ def check_props(pid, allowed_axioms=(), thorough=False):
         res["problems"].append("Print Assumptions count mismatch: %d commands, %d reports" % (n_print, closed + n_ax_blocks))
     if n_print < len(thms):
         res["problems"].append("%d theorems but only %d Print Assumptions" % (len(thms), n_print))
+    allowed_axioms = list(allowed_axioms) + STD_REAL_AXIOMS
     extra = [a for a in axioms if a not in allowed_axioms and a.split(".")[-1] not in allowed_axioms]
     if extra:
         res["problems"].append("axioms outside the allowlist: " + ", ".join(extra))
@@ -452,7 +453,16 @@ class Report:
         return 0
 
 
+# The number tower's float arm is built from Flocq's binary64 operations, which Flocq
+# defines together with their correctness proofs over Coq's Reals; every statement that
+# mentions a datum printer/reader or the VM therefore lists these four standard-library
+# axioms under Print Assumptions even when its proof never reasons about reals.
+STD_REAL_AXIOMS = ["Classical_Prop.classic", "ClassicalDedekindReals.sig_forall_dec",
+                   "ClassicalDedekindReals.sig_not_dec",
+                   "FunctionalExtensionality.functional_extensionality_dep"]
+
 TRUSTED_BASE_COMMON = [
+    "standard-library axioms reported by Print Assumptions where a statement mentions Flocq-based definitions (Model/F64.v via Model/NumFmt.v): Classical_Prop.classic, ClassicalDedekindReals.sig_forall_dec, ClassicalDedekindReals.sig_not_dec, FunctionalExtensionality.functional_extensionality_dep; no axiom is declared by this development",
     "Coq 8.16.1 kernel (coqc); vm_compute used for finite reflection and the in-kernel cross-check; no native_compute",
     "hand-written Gallina model of the Rust code tied to /repo by differential correspondence on generated cases (sampling outside exhaustively enumerated domains)",
     "extraction: ExtrOcamlBasic only (Extract Inductive bool/option/list/prod/unit/sumbool/sumor, Extract Inlined Constant fst/snd/andb/orb/negb...), OCaml 4.13.1, ocaml/main.ml driver; mitigated by the vm_compute cross-check sub-sample",
